@@ -104,6 +104,7 @@ func callsToOpt(fn, callee *ssa.Function) []ssa.CallInstruction {
 
 func runC07(p *core.Program, r *core.Report) {
 	c := rc{p, r}
+	noSingledOutValue(c, []string{"cache/lrucache.go"}, nil)
 	workOnEveryPath(c, "cache.(*LRUCache).Flush", "map and list reset on every path", "LRUCache", "items", nil, "Flush returns on a path that resets nothing")
 	workOnEveryPath(c, "cache.(*LRUCache).Add", "entry stored on every path", "node", "value", []string{"addFront", "addAfter"}, "Add returns on a path that neither inserts the key nor overwrites its value: the pair is dropped")
 	const T = "cache.(*LRUCache)."
